@@ -56,6 +56,11 @@ def containers(c):
     return tracks(c) + [c.sync_track, c.global_events_track]
 def public_names(o):
     return [n for n in dir(o) if not n.startswith("_")]
+def try_(f, x):
+    try:
+        return f(x)
+    except Exception as e:
+        return type(e).__name__
 def must_raise(f):
     try:
         f()
@@ -130,6 +135,10 @@ OPS.update(
         "in_cross": "[(c in list(l), [x in [c] for x in list(l)[:3]]) for l in event_lists(c)] + [c.metadata in [c], c in [c.metadata], c in tracks(c), c.sync_track in [c]]",
         "eq_cross_parts": "(lambda parts: [a == b for a in parts for b in parts])([c.metadata, c.sync_track, c.global_events_track, c.sync_track.bpm_events] + tracks(c) + events(c)[:8])",
         "hash_events": "[hash(e) for e in events(c)]",
+        # hashing is asked of EVERYTHING reachable (an unhashable object answers TypeError - that is an answer too),
+        # and objects are used as set members / dict keys
+        "hash_all": "[try_(hash, x) for x in [c, c.metadata, c.sync_track, c.sync_track.bpm_events, c.global_events_track, c.instrument_tracks] + tracks(c) + event_lists(c) + events(c)]",
+        "set_members": "[try_(lambda y: len({y}) + len({y: 1}), x) for x in [c, c.metadata, c.sync_track, c.sync_track.bpm_events, c.global_events_track] + tracks(c) + events(c)[:12]]",
         "derived_note": "[(e.longest_sustain, e.end_tick) for t in tracks(c) for e in t.note_events]",
         "derived_track": "[(t.header_tag, t.last_note_end_timestamp) for t in tracks(c)]",
         "derived_phrase": "[p.end_tick for t in tracks(c) for p in t.star_power_events]",
